@@ -47,17 +47,17 @@ def read_spellings(mode, idxs, dims, tol):
     sp = []
     if mode == "label":
         if tol is None:
-            sp += ["getitem", "take", "take_dict", "loc", "sel", "opt_ix", "opt_loc"]
+            sp += ["getitem", "take", "take_dict", "loc", "sel", "opt_ix", "opt_loc", "opt_sel", "opt_take_label"]
             if len(nonall) == 1:
                 sp += ["take_axis_name", "take_axis_pos"]
             if len(nonall) <= 1 and len(dims) >= 1:
                 sp += ["getitem_partial"]
         else:
-            sp += ["take_tol", "take_dict_tol"]
+            sp += ["take_tol", "take_dict_tol", "opt_take_label_tol"]
             if tol == np.inf:
-                sp += ["nloc"]
+                sp += ["nloc", "opt_nloc"]
     else:
-        sp += ["ix", "iloc", "isel", "take_position", "opt_getitem", "opt_iloc"]
+        sp += ["ix", "iloc", "isel", "take_position", "opt_getitem", "opt_iloc", "opt_isel", "opt_take", "opt_take_dict"]
         if len(nonall) == 1:
             sp += ["take_axis_name_position"]
     return sp
@@ -105,10 +105,21 @@ def do_read(a, spelling, tup, dims, idxs, tol, da):
     raise ValueError(spelling)
 
 
+def _d(a, tup):
+    return {ax.name: ix for ax, ix in zip(a.axes, tup) if not (isinstance(ix, slice) and ix == slice(None))}
+
+
 OPTION_SPELLINGS = {
-    # spelling -> (value of indexing.by while the array is built and read, accessor)
-    "opt_ix": ("position", lambda a, tup: a.ix[tup]),        # .ix toggles: label under indexing.by=position
-    "opt_loc": ("position", lambda a, tup: a.loc[tup]),      # .loc keeps its meaning
-    "opt_getitem": ("position", lambda a, tup: a[tup] if len(tup) != 1 else a[tup[0]]),
-    "opt_iloc": ("position", lambda a, tup: a.iloc[tup]),
+    # spelling -> (value of indexing.by while the array is built and read, accessor(a, tup, tol))
+    "opt_ix": ("position", lambda a, tup, tol: a.ix[tup]),        # .ix toggles: label under indexing.by=position
+    "opt_loc": ("position", lambda a, tup, tol: a.loc[tup]),      # .loc, .sel, .nloc, indexing='label' keep their meaning
+    "opt_sel": ("position", lambda a, tup, tol: a.sel(**_d(a, tup))),
+    "opt_take_label": ("position", lambda a, tup, tol: a.take(tup, indexing="label")),
+    "opt_take_label_tol": ("position", lambda a, tup, tol: a.take(tup, indexing="label", tol=tol)),
+    "opt_nloc": ("position", lambda a, tup, tol: a.nloc[tup]),
+    "opt_getitem": ("position", lambda a, tup, tol: a[tup] if len(tup) != 1 else a[tup[0]]),
+    "opt_iloc": ("position", lambda a, tup, tol: a.iloc[tup]),
+    "opt_isel": ("position", lambda a, tup, tol: a.isel(**_d(a, tup))),
+    "opt_take": ("position", lambda a, tup, tol: a.take(tup)),     # the default mode follows the option
+    "opt_take_dict": ("position", lambda a, tup, tol: a.take(_d(a, tup))),
 }
